@@ -187,3 +187,172 @@ def rmaj(gene, prof, raw, cnsol, limit=200000):
         score = err + (prof.major_novel if novel else 0) + 0.1 * len(novel)
         out[(tuple(sorted(sel)), tuple(sorted(novel)))] = score
     return cands, out, t2
+
+
+# =============================================================================================== R-MIN
+def minor_keep_rule(gene, mutations):
+    from aldy.gene import Mutation
+
+    def keep(p, o):
+        if o == "-":
+            return True
+        r = gene.region_at(p)
+        return Mutation(p, o) in mutations or bool(r and r[1][0] == "e") or bool(r and r[1] in ["utr3", "utr5", "up"])
+
+    return keep
+
+
+def rmin(gene, prof, raw, major_counts, cnsol, extra_mutations=(), phases=None, limit=400000):
+    """Exhaustive evaluation of the minor-stage objective for ONE major solution.
+
+    major_counts: {major name: copies}; extra_mutations: novel core variants of the major solution (its `added`).
+    phases: {fragment: {pos: label}} or None.  Returns (best (score, assignment, n_added), n_feasible, table).
+    An assignment is a list of (major, minor, definition, kept, added) per called copy.
+    """
+    from aldy.gene import Mutation
+
+    majors = list(major_counts)
+    mutations = set(Mutation(*m) for m in extra_mutations)
+    for A in majors:
+        mutations |= set(gene.alleles[A].func_muts)
+        for mi in gene.alleles[A].minors.values():
+            mutations |= set(mi.neutral_muts)
+    mutations |= set(gene.random_mutations)
+    t2, pcn = filtered_table(gene, prof, raw, cnsol, keep=minor_keep_rule(gene, mutations))
+
+    def cnt(p, o):
+        return len(t2.get(p, {}).get(o, []))
+
+    def scov(p):
+        c = pcn(p)
+        return 0 if c == 0 else max(1, _tot(t2, p)) / c
+
+    muts = sorted(mutations)
+    positions = sorted({m.pos for m in muts})
+    bypos = {p: [m for m in muts if m.pos == p] for p in positions}
+
+    def options(A):
+        opts = []
+        for mi, M in gene.alleles[A].minors.items():
+            D = set(gene.alleles[A].func_muts) | set(M.neutral_muts)
+            forced = [m for m in D if gene.is_functional(m)]
+            if any(not gene.has_coverage(A, m.pos) for m in forced):
+                continue
+            free = [m for m in D if not gene.is_functional(m) and gene.has_coverage(A, m.pos)]
+            addable = [m for m in muts if m not in D and gene.has_coverage(A, m.pos)]
+            for ks in range(len(free) + 1):
+                for keep in itertools.combinations(free, ks):
+                    kept = set(forced) | set(keep)
+                    for as_ in range(len(addable) + 1):
+                        for add in itertools.combinations(addable, as_):
+                            car = kept | set(add)
+                            pc = collections.Counter(m.pos for m in car)
+                            if any(v > 1 for v in pc.values()):
+                                continue
+                            opts.append((A, mi, frozenset(D), frozenset(kept), frozenset(add)))
+        return opts
+
+    # number of keep/new variables an allele has at a position (needed for rule 6), also for unused alleles
+    def nvars(A, D, p):
+        return sum(1 for m in bypos[p] if m in D or gene.has_coverage(A, m.pos))
+
+    max_mut = {p: 0 for p in positions}
+    for A in majors:
+        for mi, M in gene.alleles[A].minors.items():
+            D = set(gene.alleles[A].func_muts) | set(M.neutral_muts)
+            for p in positions:
+                max_mut[p] = max(max_mut[p], nvars(A, D, p))
+
+    slots = []
+    size = 1
+    for A, c in major_counts.items():
+        o = options(A)
+        combs = list(itertools.combinations_with_replacement(range(len(o)), c))
+        size *= max(1, len(combs))
+        if size > limit:
+            raise OverflowError(size)
+        slots.append([[o[i] for i in comb] for comb in combs])
+
+    # phase modes
+    modes = collections.Counter()
+    if phases:
+        mpos = set(positions)
+        for rv in phases.values():
+            c = tuple(sorted((k, v) for k, v in rv.items() if k in mpos))
+            if len(c) > 1:
+                modes[c] += 1
+
+    best = None
+    n = 0
+    for combo in itertools.product(*slots):
+        sel = [s for part in combo for s in part]
+        T = collections.Counter()
+        for (A, mi, D, kept, add) in sel:
+            for m in kept | add:
+                T[m] += 1
+        ok = True
+        for m in muts:
+            if pcn(m.pos) == 0 or cnt(m.pos, m.op) == 0:
+                if T[m] > 0:
+                    ok = False
+                    break
+            elif T[m] < 1 or T[m] > cnt(m.pos, m.op):
+                ok = False
+                break
+        if not ok:
+            continue
+        # rule 6
+        for p in positions:
+            expr = 0
+            for (A, mi, D, kept, add) in sel:
+                expr += nvars(A, D, p) - sum(1 for m in (kept | add) if m.pos == p)
+            bound = 0 if pcn(p) == 0 else max(pcn(p), cnt(p, "_"), max_mut[p])
+            if expr > bound:
+                ok = False
+                break
+        if not ok:
+            continue
+        n += 1
+        err = 0.0
+        for m in muts:
+            s = scov(m.pos)
+            c = cnt(m.pos, m.op) / s if s > 0 else 0
+            err += abs(c - T[m])
+        for p in positions:
+            s = scov(p)
+            c = cnt(p, "_") / s if s > 0 else 0
+            R = 0
+            for (A, mi, D, kept, add) in sel:
+                if not gene.has_coverage(A, p):
+                    continue
+                pres = [m for m in D if m.pos == p and not m.op.startswith("ins")]
+                if pres:
+                    R += 1 - (1 if pres[0] in kept else 0)
+                else:
+                    R += 1 - sum(1 for m in add if m.pos == p and not m.op.startswith("ins"))
+            err += abs(c - R)
+        miss = sum(len(D) - len(kept) for (A, mi, D, kept, add) in sel)
+        nadd = sum(len(add) for (A, mi, D, kept, add) in sel)
+        novf = len({m for (A, mi, D, kept, add) in sel for m in add
+                    if gene.is_functional(m) and m not in gene.alleles[A].func_muts})
+        score = err + prof.minor_miss * miss + prof.minor_add * nadd + prof.minor_add / 2 * novf
+        if modes:
+            ph = 0.0
+            for mode, c in modes.items():
+                r = dict(mode)
+                costs = []
+                for (A, mi, D, kept, add) in sel:
+                    rel = [m for m in muts if m.pos in r and gene.has_coverage(A, m.pos)]
+                    if len(rel) <= 1:
+                        continue
+                    e = 0
+                    for m in rel:
+                        x = 1 if (m in kept or m in add) else 0
+                        e += (1 - x) if m.op == r[m.pos] else x
+                    costs.append(e)
+                if costs:
+                    ph += c * min(costs)
+            score += prof.minor_phase * ph
+        if best is None or score < best[0] - 1e-12:
+            best = (score, sel, nadd)
+    return best, n, t2
